@@ -80,7 +80,7 @@ Proof. intros Hr Hm Hcase. unfold flow_append. rewrite Hr.
 Qed.
 
 Section XFlow.
-Variables (m : mode) (rv : Z -> Z -> Z) (x : xpub) (n : Z).
+Variables (m : mode) (rv : Z -> Z -> list Z -> Z) (x : xpub) (n : Z).
 Hypothesis Hinv : xpub_inv n x.
 Hypothesis Htail : xtail_ok n x.
 Variables (x0 : xpub) (r0 : outcome Z) (n0 off0 : Z).
